@@ -12,6 +12,9 @@
 //   {"op":"DS","pos":p,"c":[[c..],..]}  decoder sweep: text of length 1..5 with the character at position p swept over 0..255;
 //        the 256 results (dlen * 2^24 + decoded bytes as a base-256 number; dlen > 3: -1) are printed run-length encoded
 //        ->  {"op":"DS","pos":p,"c":[[text, [[lo,hi,v],..]],..]}
+//   {"op":"R","c":[[c0,..],..]}   (round 4) ->  [[text, d = decode(text), encode(d)],..]
+//   {"op":"X","c":[[[a..],[b..]],..]}  (round 4) ->  [[a, b, decode(encode(a) + encode(b)), encode(a + b), encode(a)],..]
+//        (the arguments of R and X are enumerated by TLC: specs/Base64Gen.tla)
 //   "arg":1 on a script line (round 3): every argument string is built with more capacity than size (reserve, then assign -
 //        the state of a string that was longer before); the slack behind the terminator is poisoned under AddressSanitizer
 //   (any further key of a script line, e.g. "bld", is ignored)
@@ -172,6 +175,21 @@ int main()
         {
             if (!first) o += ',';
             first = false;
+            if (op == "X")
+            {
+                std::string ra = raw_of(c.a.at(0)), rb = raw_of(c.a.at(1));
+                arg_string a(ra.data(), ra.size(), mode), b(rb.data(), rb.size(), mode);
+                std::string ea = bytes_of(xtl::base64encode(*a.s));
+                std::string eb = bytes_of(xtl::base64encode(*b.s));
+                std::string cat = ea + eb;
+                arg_string ca(cat.data(), cat.size(), mode);
+                std::string dc = bytes_of(xtl::base64decode(*ca.s));
+                std::string ab = ra + rb;
+                arg_string aba(ab.data(), ab.size(), mode);
+                std::string eab = bytes_of(xtl::base64encode(*aba.s));
+                o += "[" + ints_of(ra) + "," + ints_of(rb) + "," + ints_of(dc) + "," + ints_of(eab) + "," + ints_of(ea) + "]";
+                continue;
+            }
             std::string raw = raw_of(c);
             if (sweep)
             {
@@ -229,6 +247,13 @@ int main()
             {
                 std::string dec = bytes_of(xtl::base64decode(*arg.s));
                 o += "[" + ints_of(*arg.s) + "," + ints_of(dec) + "]";
+            }
+            else if (op == "R")
+            {
+                std::string dec = bytes_of(xtl::base64decode(*arg.s));
+                arg_string darg(dec.data(), dec.size(), mode);
+                std::string re = bytes_of(xtl::base64encode(*darg.s));
+                o += "[" + ints_of(*arg.s) + "," + ints_of(dec) + "," + ints_of(re) + "]";
             }
             else
             {
